@@ -30,7 +30,7 @@ inductive BEv
   | w (cs dc : Nat) (lens : List (Nat × Nat)) (bytes : Bytes)
   | flush
   | rst (line : Nat) (lvl : Bool)
-  | busy (lvl : Bool)
+  | busy (lvl : Bool) (pin : Nat)
   | delay (u : DUnit) (n : Nat)
   | read (cs dc len : Nat)
   | fail (cs dc len : Nat)          -- the failed `SpiBus::write` (injected fault)
@@ -46,6 +46,7 @@ structure BEnv where
   cs : Nat := 0             -- chips currently selected (mask), as the pins stand
   dc : Nat := 0
   fault : Option Nat := none   -- the (k+1)-th fallible bus call (write or flush) from now on fails
+  slow : Option Nat := none    -- only this controller's BUSY pin follows the episode; the others read idle
   deriving Repr, Inhabited
 
 def BEnv.raiseBusy (e : BEnv) : BEnv :=
@@ -61,16 +62,17 @@ def m1Rect : Rect := rect M1_RECT
 def s1Rect : Rect := rect S1_RECT
 
 /-- one pin read of the shared busy model -/
-def pollOnce (e : BEnv) : Bool × BEnv :=
+def pollOnce (e : BEnv) (pin : Nat) : Bool × BEnv :=
+  if e.slow.isSome ∧ e.slow ≠ some pin then (!e.busyLvl, e) else
   if e.busy > 0 then (e.busyLvl, { e with busy := e.busy - 1 }) else (!e.busyLvl, e)
 
 /-- `busy_chips(CS_ALL)`: four pin reads; a chip is busy when its pin is low -/
 def busyChips (e : BEnv) : List BEv × Bool × BEnv :=
-  let r1 := pollOnce e
-  let r2 := pollOnce r1.2
-  let r3 := pollOnce r2.2
-  let r4 := pollOnce r3.2
-  ([.busy r1.1, .busy r2.1, .busy r3.1, .busy r4.1], (!r1.1 || !r2.1 || !r3.1 || !r4.1), r4.2)
+  let r1 := pollOnce e 0
+  let r2 := pollOnce r1.2 1
+  let r3 := pollOnce r2.2 2
+  let r4 := pollOnce r3.2 3
+  ([.busy r1.1 0, .busy r2.1 1, .busy r3.1 2, .busy r4.1 3], (!r1.1 || !r2.1 || !r3.1 || !r4.1), r4.2)
 
 /-- `wait_ready`: `while busy_chips != 0 { delay_ms(200) }` (fuel = polls cannot exceed the pending
     duration + 1 rounds when the pin polarity is the family's; otherwise `hang`) -/
@@ -428,7 +430,7 @@ def parseBEv (line : String) : Option (List BEv) :=
     pure [.fail cs dc (← n.toNat?)]
   | ["R0", l] => some [.rst 0 (l == "1")]
   | ["R1", l] => some [.rst 1 (l == "1")]
-  | ["B", l] => some [.busy (l == "1")]
+  | ["B", l, k] => k.toNat?.map fun pin => [.busy (l == "1") pin]
   | ["D", "us", n] => n.toNat?.map fun k => [.delay .us k]
   | ["D", "ms", n] => n.toNat?.map fun k => [.delay .ms k]
   | ["D", "ns", n] => n.toNat?.map fun k => [.delay .ns k]
@@ -568,7 +570,7 @@ def BEv.show : BEv → String
     s!"W c{hexDigit cs}d{dc} {lens.length}runs {bs.length}bytes {if bs.length ≤ 12 then hexOf bs else hexOf (bs.take 6) ++ ".." ++ String.ofList (Nat.toDigits 16 (fnv1a bs).toNat)}"
   | .flush => "L"
   | .rst l v => s!"R{l} {if v then 1 else 0}"
-  | .busy v => s!"B {if v then 1 else 0}"
+  | .busy v k => s!"B {if v then 1 else 0} {k}"
   | .delay .us n => s!"D us {n}"
   | .delay .ms n => s!"D ms {n}"
   | .delay .ns n => s!"D ns {n}"
@@ -597,7 +599,7 @@ def compareB : List BOp → List BOp → Nat → Option String
   | [], i :: _, k => some s!"op={k} missing in model (impl {i.res.toString})"
 
 def mkBEnv (sc : Scenario) : BEnv :=
-  { sched := sc.sched, raise := sc.raise, busyLvl := sc.busyLvl, fault := sc.fault }
+  { sched := sc.sched, raise := sc.raise, busyLvl := sc.busyLvl, fault := sc.fault, slow := sc.slow }
 
 /-- C15 verdict lines of one scenario against a trace (implementation or model) -/
 def c15Verdicts (sc : Scenario) (t : List BOp) : Nat × List String :=
@@ -794,6 +796,66 @@ def c11B (a : List String) (t : BOp) : List String :=
     else return some s!"incomplete-pulse-phase{ph}"
   (if bus then [s!"site={site} reason=bus-traffic-during-reset got=transfer want=none"] else []) ++
   ([0, 1].filterMap fun l => (lineOk l).map fun why => s!"site={site} reason=malformed-pulse got=line{l}:{why} want=high-low-high-settle")
+
+/-- the individual bus writes of a grouped `W` event -/
+def splitTransfers : List (Nat × Nat) → Bytes → List Bytes
+  | [], _ => []
+  | (l, c) :: r, bs =>
+    let rec rep : Nat → Bytes → List Bytes × Bytes
+      | 0, b => ([], b)
+      | n + 1, b => let x := rep n (b.drop l); (b.take l :: x.1, x.2)
+    let x := rep c bs
+    x.1 ++ splitTransfers r x.2
+
+/-- C05: the busy episodes of the scenario replayed along a trace.  A one-byte command of the
+    raise set starts an episode (duration from the schedule; with `slow = k` only controller k's pin
+    follows it); every pin read consumes one poll of it.  Judged: no refresh trigger while an
+    episode is pending; the synchronous calls (refresh, partial refresh, power_off, hibernate)
+    return only when no controller is busy; a pin is not re-read without a non-zero delay in
+    between (no spinning); the call does not hang although every episode is finite -/
+def c05Scan (sc : Scenario) (t : List BOp) : Nat × List String := Id.run do
+  let mut pending := 0
+  let mut sched := sc.sched
+  let mut out : List String := []
+  let mut n := 0
+  let mut k := 0
+  for o in t do
+    let name := (sc.ops.getD k []).headD "?"
+    let site := s!"epd12in48b_v2/{name}"
+    let mut readSince : List Nat := []      -- pins read since the last non-zero delay
+    for e in o.evs do
+      match e with
+      | .w _ 0 lens bytes =>
+        for tr in splitTransfers lens bytes do
+          match tr with
+          | [c] =>
+            if c = 0x12 ∧ pending > 0 then
+              out := out ++ [s!"site={site} reason=refresh-trigger-while-busy got=pending:{pending} want=idle op={k}"]
+            if sc.raise.contains c then
+              match sched with
+              | [] => pending := 0
+              | d :: ds => pending := d; sched := ds
+          | _ => pure ()
+      | .rst _ lvl =>
+        -- (the mock panel starts an episode whenever a reset line is driven high)
+        if lvl then
+          match sched with
+          | [] => pending := 0
+          | d :: ds => pending := d; sched := ds
+      | .busy _ pin =>
+        if readSince.contains pin then
+          out := out ++ [s!"site={site} reason=poll-without-delay got=pin{pin} want=delay-between-polls op={k}"]
+        readSince := pin :: readSince
+        if ¬ (sc.slow.isSome ∧ sc.slow ≠ some pin) ∧ pending > 0 then pending := pending - 1
+      | .delay _ d => if d > 0 then readSince := []
+      | _ => pure ()
+    n := n + 1
+    if o.res == .hang then
+      out := out ++ [s!"site={site} reason=wait-does-not-terminate got=hang want=returns op={k}"]
+    else if o.res == .ok ∧ pending > 0 ∧ (name == "refresh" ∨ name == "refreshp" ∨ name == "poweroff" ∨ name == "hibernate") then
+      out := out ++ [s!"site={site} reason=returned-while-busy got=pending:{pending}{match sc.slow with | some p => s!":chip{p}" | none => ""} want=idle op={k}"]
+    k := k + 1
+  return (n, out.eraseDups)
 
 def perOpVerdicts (f : List String → BOp → List String) (sc : Scenario) (t : List BOp) : Nat × List String :=
   let rec go : List (List String) → List BOp → Nat → Nat → List String → Nat × List String
